@@ -28,7 +28,8 @@ EXPLANATION = (
     "minimal symmetric finite-difference stencil of order n obtained by solving the moment equations over Fraction. The "
     "extraEf table is folded from the constructor and compared with the stencil half-width. The accumulation loop, the "
     "sea flag, hole_like handling, the k-resolved path, the half-open group convention and the non-additive branch are "
-    "structural rules. Decides that the fder=n calculators are by construction the n-th central differences of the sea "
+    "structural rules. Memoised providers (band groups, tetrahedron weights, k-space matrices) are checked for key completeness: every "
+    "parameter the cached value depends on (def-use slice with control dependence) flows into the cache key. Decides that the fder=n calculators are by construction the n-th central differences of the sea "
     "calculator with the same formula; does not decide monotonicity/limits of CumDOS numerically.")
 
 ST = "wannierberri/calculators/static.py"
